@@ -1114,7 +1114,11 @@ func (t *Table) MergeCellsHorizontal(row, startCol, endCol int) error {
 		startCell.Properties = &TableCellProperties{}
 	}
 
-	spanCount := endCol - startCol + 1
+	// 跨度是被合并单元格已有跨度之和（其中某些单元格可能已经是合并单元格）
+	spanCount := 0
+	for col := startCol; col <= endCol; col++ {
+		spanCount += t.Rows[row].Cells[col].gridSpanValue()
+	}
 	startCell.Properties.GridSpan = &GridSpan{
 		Val: fmt.Sprintf("%d", spanCount),
 	}
@@ -1129,6 +1133,26 @@ func (t *Table) MergeCellsHorizontal(row, startCol, endCol int) error {
 
 	Info(fmt.Sprintf("水平合并单元格：行%d，列%d到%d", row, startCol, endCol))
 	return nil
+}
+
+// gridSpanValue 返回单元格占用的网格列数（没有 gridSpan 时为1）
+func (tc *TableCell) gridSpanValue() int {
+	span := 1
+	if tc.Properties != nil && tc.Properties.GridSpan != nil {
+		if _, err := fmt.Sscanf(tc.Properties.GridSpan.Val, "%d", &span); err != nil || span < 1 {
+			span = 1
+		}
+	}
+	return span
+}
+
+// gridStartOf 返回第row行第col个单元格起始的网格列
+func (t *Table) gridStartOf(row, col int) int {
+	start := 0
+	for i := 0; i < col; i++ {
+		start += t.Rows[row].Cells[i].gridSpanValue()
+	}
+	return start
 }
 
 // MergeCellsVertical 垂直合并单元格（合并行）
@@ -1149,6 +1173,14 @@ func (t *Table) MergeCellsVertical(startRow, endRow, col int) error {
 	for i := startRow; i <= endRow; i++ {
 		if col >= len(t.Rows[i].Cells) {
 			return fmt.Errorf("第%d行没有第%d列", i, col)
+		}
+	}
+
+	// 各行的单元格必须位于同一网格列且跨度相同，否则无法构成合法的垂直合并
+	for i := startRow + 1; i <= endRow; i++ {
+		if t.gridStartOf(i, col) != t.gridStartOf(startRow, col) ||
+			t.Rows[i].Cells[col].gridSpanValue() != t.Rows[startRow].Cells[col].gridSpanValue() {
+			return fmt.Errorf("第%d行第%d个单元格与第%d行的单元格不在同一网格列（存在水平合并），无法垂直合并", i, col, startRow)
 		}
 	}
 
@@ -1183,6 +1215,20 @@ func (t *Table) MergeCellsRange(startRow, endRow, startCol, endCol int) error {
 	// 验证范围
 	if startRow < 0 || endRow >= len(t.Rows) || startRow > endRow {
 		return fmt.Errorf("行索引范围无效：[%d, %d]", startRow, endRow)
+	}
+
+	// 先检查所有行，避免合并了前几行之后才在后面的行上失败
+	if startCol < 0 || startCol > endCol {
+		return fmt.Errorf("列索引范围无效：[%d, %d]", startCol, endCol)
+	}
+	for i := startRow; i <= endRow; i++ {
+		if startCol >= len(t.Rows[i].Cells) || endCol >= len(t.Rows[i].Cells) {
+			return fmt.Errorf("第%d行列索引范围无效：[%d, %d]", i, startCol, endCol)
+		}
+		if i > startRow && (t.gridStartOf(i, startCol) != t.gridStartOf(startRow, startCol) ||
+			t.gridStartOf(i, endCol)+t.Rows[i].Cells[endCol].gridSpanValue() != t.gridStartOf(startRow, endCol)+t.Rows[startRow].Cells[endCol].gridSpanValue()) {
+			return fmt.Errorf("第%d行的单元格与第%d行不对齐（存在水平合并），无法合并区域", i, startRow)
+		}
 	}
 
 	// 先水平合并每一行
